@@ -174,3 +174,11 @@ Proof.
   assert (H := dec_enc _ _ _ [] E (or_intror eq_refl)). rewrite app_nil_r in H. rewrite H.
   rewrite Nat.eqb_refl. reflexivity.
 Qed.
+
+(** compression loses nothing: two vectors of the same length with the same compressed form are equal *)
+Lemma compress_injective d1 d2 :
+  length d1 = length d2 -> compress_bytes d1 = compress_bytes d2 -> d1 = d2.
+Proof.
+  intros L E. pose proof (decompress_compress d1) as R1.
+  rewrite E, L, decompress_compress in R1. injection R1 as R1. symmetry. exact R1.
+Qed.
